@@ -315,11 +315,12 @@ UNITS += [calc_tail]
 # ---- toString(FULL): the millisecond field is a number 0..999 for EVERY instant (also before 1970, where the fractional part must be taken with floor, not towards zero)
 ms_field = Unit(
     'Date_toString_ms', 'C19',
-    cuts=[Cut('ms', DC, r'case FULL:[^;]*?(int\([^;]*?\) % 1000)\);', kind='expr', rules=[(r'\b_t\b', 'vf_t', None), (r'int\(', '(int)(', 1)]),
+    cuts=[Cut('ms', DC, r'case FULL:[^;]*?(int\([^;]*?\) % 1000)\);', kind='expr', rules=[(r'\b_t\b', 'vf_t', None), (r'int\(', '(int)(', 1), (r'\bfmod\(', 'vf_fmod(', None)]),   # CBMC's own fmod model is not ISO C (measured: fmod(-2.75, 1) != -0.75)
           Cut('fract', 'include/asl/defs.h', r'^inline T fract\(T x\) ')],
     text=PRE + r'''
 #include <math.h>
 static double fract(double x) @@fract@@
+static double vf_fmod(double x, double y) { return x - y * trunc(x / y); }      /* ISO C 7.12.10.1 for finite x, y != 0 without overflow */
 double nondet_double(void);
 void vf_harness(void) {
   double vf_t = nondet_double(); __CPROVER_assume(vf_t >= -62135596800.0 && vf_t <= 253402300800.0);        /* years 0001..9999 */
